@@ -237,7 +237,7 @@ Ltac attr_cases n :=
 Lemma attr_plain : forall a, wf_attr a = true ->
     filter notcs (attr_pairs a) = map val_of (b_plain a).
 Proof.
-  intros [n v|n v|ns b|p v|p v] H; cbn [wf_attr] in H.
+  intros [n v|n v|ns b|p v|p v|] H; cbn [wf_attr] in H.
   - apply andb_true_iff in H as [_ H]. unfold notcs.
     destruct v as [s| |s|[|]|[s|]]; attr_cases n; try discriminate; try reflexivity;
       cbn; unfold is_cs; rewrite ?Ec, ?Es; cbn; rewrite ?Ec, ?Es; reflexivity.
@@ -246,12 +246,13 @@ Proof.
     induction ns as [|x ns IH]; [reflexivity|]. cbn [map filter]. exact IH.
   - reflexivity.
   - reflexivity.
+  - reflexivity.
 Qed.
 
 Lemma attr_class : forall a, wf_attr a = true ->
     flat_map cls_tok (attr_pairs a) = flat_map tokens (b_class a).
 Proof.
-  intros [n v|n v|ns b|p v|p v] H; cbn [wf_attr] in H.
+  intros [n v|n v|ns b|p v|p v|] H; cbn [wf_attr] in H.
   - apply andb_true_iff in H as [_ H]. unfold cls_tok.
     destruct v as [s| |s|[|]|[s|]]; attr_cases n; try discriminate; try reflexivity;
       cbn; unfold is_cs; rewrite ?Ec, ?Es; cbn; rewrite ?Ec, ?Es; reflexivity.
@@ -261,18 +262,20 @@ Proof.
     + induction ns as [|x ns IH]; [reflexivity|]. cbn [map flat_map]. rewrite <- IH. reflexivity.
   - reflexivity.
   - reflexivity.
+  - reflexivity.
 Qed.
 
 Lemma attr_style : forall a, wf_attr a = true ->
     flat_map sty_dec (attr_pairs a) = flat_map decls (b_style a).
 Proof.
-  intros [n v|n v|ns b|p v|p v] H; cbn [wf_attr] in H.
+  intros [n v|n v|ns b|p v|p v|] H; cbn [wf_attr] in H.
   - apply andb_true_iff in H as [_ H]. unfold sty_dec.
     destruct v as [s| |s|[|]|[s|]]; attr_cases n; try discriminate; try reflexivity;
       cbn; unfold is_cs; rewrite ?Ec, ?Es; cbn; rewrite ?Ec, ?Es; reflexivity.
   - destruct v as [[|]|]; reflexivity.
   - destruct b; cbn [attr_pairs b_style flat_map]; [|reflexivity].
     induction ns as [|x ns IH]; [reflexivity|]. cbn [map flat_map]. exact IH.
+  - reflexivity.
   - reflexivity.
   - reflexivity.
 Qed.
@@ -364,7 +367,7 @@ Proof.
   - apply forallb_forall. intros kv Hkv. apply in_flat_map in Hkv as (a & Ha & Hkv).
     assert (Hw : wf_attr a = true).
     { rewrite forallb_forall in Hwf. apply Hwf. eapply Permutation_in; [apply sort_attrs_perm | exact Ha]. }
-    destruct a as [n v| | | |]; cbn [b_plain] in Hkv; try contradiction.
+    destruct a as [n v| | | | |]; cbn [b_plain] in Hkv; try contradiction.
     cbn [wf_attr] in Hw. apply andb_true_iff in Hw as [Hw _]. apply andb_true_iff in Hw as [Hw _].
     apply andb_true_iff in Hw as [Hw _].
     destruct (beq n k_class || beq n k_style); [contradiction|].
@@ -381,7 +384,7 @@ Proof.
   induction attrs as [|a attrs IH]; intros Hw Hs; [reflexivity|].
   cbn [forallb] in Hw, Hs. apply andb_true_iff in Hw as [Hwa Hw]. apply andb_true_iff in Hs as [Hsa Hs].
   cbn [flat_map]. rewrite map_app, IH by assumption. f_equal.
-  destruct a as [n v| | | |]; cbn [attr_static] in Hsa; try discriminate.
+  destruct a as [n v| | | | |]; cbn [attr_static] in Hsa; try discriminate.
   cbn [wf_attr] in Hwa. apply andb_true_iff in Hwa as [_ Hwa].
   destruct v as [s| |s|[|]|[s|]]; try discriminate; [reflexivity|].
   cbn [i_attr attr_pairs]. unfold is_cs in *.
@@ -393,7 +396,7 @@ Lemma inert_attr_names : forall attrs, forallb wf_attr attrs = true ->
 Proof.
   intros attrs Hwf. apply forallb_forall. intros kv Hkv. apply in_flat_map in Hkv as (a & Ha & Hkv).
   rewrite forallb_forall in Hwf. specialize (Hwf a Ha).
-  destruct a as [n v| | | |]; cbn [i_attr] in Hkv; try contradiction.
+  destruct a as [n v| | | | |]; cbn [i_attr] in Hkv; try contradiction.
   cbn [wf_attr] in Hwf. apply andb_true_iff in Hwf as [Hw _]. apply andb_true_iff in Hw as [Hw _].
   apply andb_true_iff in Hw as [Hw _].
   destruct v as [s| |s|[|]|[s|]]; cbn in Hkv; try contradiction.
